@@ -124,6 +124,8 @@ Box *makeBox(int v) { Guard g; return new Box(v); }
 // ---------------------------------------------------------------- strings
 const std::string &strRef() { Guard g; return g_ref_string; }
 std::string strVal(int n) { Guard g; return pattern(n); }
+std::string strVal2(int n) { Guard g; return pattern(n) + "2"; }
+const std::string strVal3(int n) { Guard g; return pattern(n) + "33"; }
 const std::string *strOwned(int n) {
     Guard g;
     std::string *s = new std::string(pattern(n));
